@@ -128,18 +128,30 @@ class SymbolicPath:
         if self.div_mode == "assume":
             self.assumption_notes.add("denominators assumed non-zero (real-domain precondition, see `defined` obligations)")
             self.assume(den != 0)
+        elif self.div_mode == "oblige":
+            k = self.ghost["ndef"] = self.ghost.get("ndef", 0) + 1
+            self.prove_nl("%s.defined.den%d" % (self.session.name, k), den != 0)
         elif self.div_mode == "fork":
             if not self.branch(den != 0):
                 raise ZeroDivisionError("division by zero")
         else:
             raise Unsupported("div_mode %r" % self.div_mode)
 
+    def domain_guard(self, cond, what):
+        """real-domain side condition (radicand >= 0, log argument > 0, ...)"""
+        if self.div_mode == "oblige":
+            k = self.ghost["ndef"] = self.ghost.get("ndef", 0) + 1
+            self.prove_nl("%s.defined.%s%d" % (self.session.name, what, k), cond)
+        else:
+            self.assumption_notes.add("real-domain side conditions (%s) assumed; see `defined` obligations" % what)
+            self.assume(cond)
+
     def oblige_or_raise(self, cond, exc, msg=""):
         if not self.branch(cond):
             raise exc(msg)
 
     # ------------------------------------------------------------------ obligations
-    def prove(self, name, goal, assume_after=True, detail=""):
+    def prove(self, name, goal, assume_after=True, detail="", timeout_ms=None):
         """register and immediately try to discharge obligation `name` on this path"""
         ob = Obligation(name)
         ob.path_id = self.path_id
@@ -150,8 +162,12 @@ class SymbolicPath:
         self.solver.push()
         try:
             self.solver.set("rlimit", self.session.rlimit_goal)
+            if timeout_ms:
+                self.solver.set("timeout", timeout_ms)
             self.solver.add(z3.Not(g))
             r = self.solver.check()
+            if timeout_ms:
+                self.solver.set("timeout", TIMEOUT_MS)
             ob.rlimit = _rlimit_count(self.solver)
             if r == z3.unsat:
                 ob.result = "discharged"
@@ -179,6 +195,57 @@ class SymbolicPath:
         if assume_after:
             self.assume(g)
         return ob.result == "discharged"
+
+    def record_custom(self, name, result, backend, seconds=0.0, detail="", inputs=None, model=None, assume=None):
+        ob = Obligation(name)
+        ob.path_id = self.path_id
+        ob.havoc = self.havoc_used
+        ob.result = result
+        ob.backend = backend
+        ob.seconds = seconds
+        ob.detail = detail
+        ob.inputs = inputs
+        ob.model = model
+        self.obligations.append(ob)
+        self.session.record(ob)
+        if assume is not None:
+            self.assume(assume)
+        return result == "discharged"
+
+    def prove_identity(self, name, a, b):
+        """field identity a == b: exact normaliser first (back end `ring`), then z3"""
+        from .realalg import Normaliser
+        import time as _t
+        t0 = _t.time()
+        ea, eb = to_z3(a, "real"), to_z3(b, "real")
+        try:
+            ok = Normaliser().equal(ea, eb)
+            why = ""
+        except (ValueError, OverflowError, ZeroDivisionError, RuntimeError) as ex:
+            ok = False
+            why = "ring: %s" % ex
+        if ok:
+            return self.record_custom(name, "discharged", "ring", _t.time() - t0,
+                                      "identity by exact normalisation (denominators non-zero, radicands non-negative: see `defined`)")
+        return self.prove(name, ea == eb, detail=why or "ring: normal forms differ", timeout_ms=8000)
+
+    def prove_nl(self, name, goal):
+        """nonlinear real arithmetic goal under the path condition: nlsat on atomised terms"""
+        from .smt import nl_check
+        import time as _t
+        t0 = _t.time()
+        g = to_z3(goal)
+        r, m = nl_check(self.conds, g)
+        if r == "unsat":
+            return self.record_custom(name, "discharged", "z3-nlsat", _t.time() - t0, "atomised real functions (5.3)", assume=g)
+        if r == "sat":
+            # the model is over atoms; try to decode inputs that are plain variables
+            try:
+                inputs = self.decode_inputs(m)
+            except Exception:
+                inputs = None
+            return self.record_custom(name, "failed", "z3-nlsat", _t.time() - t0, "counter-model over atomised terms", inputs=inputs, model=str(m)[:3000], assume=g)
+        return self.prove(name, g, detail="nlsat: %s" % (m,))
 
     def cover(self, name):
         """reachability witness: the current path condition must be satisfiable"""
